@@ -20,12 +20,12 @@ RULE = ("cases: (a) create_tx / distribute_from_split_pool builds with 1..8 spen
         "of that second transaction, distribute_from_split_pool again) after each of which the first transaction is observed again; list or tuple "
         "container, non-default lock_time/version; distinct by (k, n_in, n_out, R class, R mod k, spendable form, activities); (b) split_with_remainder "
         "exhaustively for total<=80 x count<=9 and at 21e14-scale totals; (c) validate_unspents against a database of source transactions "
-        "with no discrepancy and with exactly one (amount +-1, script byte/length, outputs swapped, wrong tx under the hash, missing tx, index "
+        "with no discrepancy and with exactly one (amount +-1 / recorded as 0, script byte/length, outputs swapped, wrong tx under the hash, missing tx, index "
         "out of range) at every input position, with the spending transaction built by create_tx or by hand (Spendable or plain TxOut unspents), "
         "left unsigned / inputs filled with scripts and-or witness stacks / really signed (p2pkh, p2wpkh, p2pk sources), a dict or a get-only "
         "database, and verified once or in a history of 2-3 verifications on the same object (faithful and discrepant records installed in "
         "turn through set_unspents or attribute edits); (d) the four converters on every amount 0..3000, neighbourhoods of 10^k, 10^8, 21e14 and "
-        "random amounts, as Decimal, int and decimal strings in several spellings; (e) histories on ONE transaction object (sometimes two with "
+        "random amounts, as Decimal, int (whole BTC / whole mBTC) and decimal strings in several spellings plus the strings str() / format(,'f') give for the returned amount; (e) histories on ONE transaction object (sometimes two with "
         "the same id): made by create_tx, by hand + set_unspents, by the constructor's unspents= argument (complete, too long, too short, "
         "with a None, absent) or parsed from bytes with or without trailing records; then 1-4 rounds of [1-2 changes, readings], the changes "
         "drawn from set_unspents (right / wrong length), unspents_from_db (full database, a source missing, ignore_missing), parse_unspents, "
@@ -46,7 +46,13 @@ ASSUMPTIONS = [
     "with an amount discrepancy, so that in every judged case a recorded amount or script differs from the true source",
     "addresses come from network.address.for_p2pkh/for_p2sh/for_p2pkh_wit of the network under test (workload only; the output scripts are "
     "not judged here, that is C08)",
-    "decimal strings are plain digit strings with at most 8 (BTC) / 5 (mBTC) fractional digits",
+    "decimal strings are plain digit strings with at most 8 (BTC) / 5 (mBTC) fractional digits (leading zeros, a missing integer part and a "
+    "bare trailing point included), and what str() / format(.., 'f') print for the amount a satoshi_to_* converter returned; 'exact' is a "
+    "statement about the value: the type of a converter's result is not judged",
+    "the return value of distribute_from_split_pool is not judged (the statement speaks about the transaction)",
+    "records that do not fit the inputs one to one, handed to the Tx constructor or appended to the serialised form, may be refused at "
+    "that point (any exception; the unchanged library takes them): there is then no object whose fee could be read. The same for "
+    "as_hex(include_unspents=True) on such an object",
     "'each input stays paired with the spendable it came from' and the value clauses are statements about the returned transaction for as "
     "long as it exists: what the caller later does with containers it owns (the spendables list / tuple, dict-form entries, the payables "
     "list), with another transaction built from the same spendables, or a repeated distribute_from_split_pool must not change it. Edits of "
@@ -451,6 +457,13 @@ def _check_build(name, net, rng, rec, in_values, amounts, fee, form="object", vi
     rclass = "neg" if rem < 0 else "lt_k" if rem < k else "eq_k" if rem == k else "k+1" if rem == k + 1 else "big"
     rec.case(("build", via, form if via == "create_tx" else "", k, len(in_values), len(amounts), rclass, rem % k if k and rem >= 0 else -1,
               fee == 0, tag, tuple(aftermath), container if via == "create_tx" else "", bool(extra)), nontrivial=k >= 1)
+    rec.ev("build.remainder." + (rclass if k else "no_unspecified"))
+    rec.ev("build.entry." + via)
+    if via == "create_tx":
+        rec.ev("build.form." + form)
+        rec.ev("build.container." + container)
+        if any(a == 0 for a in amounts) and any(a != 0 for a in amounts):
+            rec.ev("build.payables_mixed")
     if via == "create_tx":
         forms = [form if form != "mixed" else ("object", "text", "dict")[i % 3] for i in range(len(fields))]
         entries = [_as_form(S, f, fm) for f, fm in zip(fields, forms)]
@@ -467,9 +480,7 @@ def _check_build(name, net, rng, rec, in_values, amounts, fee, form="object", vi
     def build():
         t = Tx(1, [G.spendable_to_pycoin(S, f).tx_in() for f in fields], [Tx.TxOut(a, b"\x51") for a in amounts])
         t.set_unspents([G.spendable_to_pycoin(S, f) for f in fields])
-        zc = net.tx_utils.distribute_from_split_pool(t, fee)
-        if zc != k:
-            rec.violation("split_pool.wrong_zero_count", case, zc, k)
+        net.tx_utils.distribute_from_split_pool(t, fee)        # (its return value is not part of the statement)
         return t
     rec.ev("distribute_from_split_pool")
     st, tx = observe(build)
@@ -588,8 +599,8 @@ def run_split_exhaustive(spec, rec, nets):
 # validate_unspents
 
 DISCREPANCIES = ["amount_plus", "amount_minus", "script_byte", "script_longer", "script_shorter", "swapped_output", "wrong_tx",
-                 "missing_tx", "index_out_of_range", "index_far_out_of_range", "amount_and_script"]
-_GROUP = {"amount_plus": "amount", "amount_minus": "amount", "script_byte": "script", "script_longer": "script",
+                 "missing_tx", "index_out_of_range", "index_far_out_of_range", "amount_and_script", "amount_zero"]
+_GROUP = {"amount_plus": "amount", "amount_minus": "amount", "amount_zero": "amount", "script_byte": "script", "script_longer": "script",
           "script_shorter": "script", "amount_and_script": "amount_and_script", "swapped_output": "swapped_output",
           "wrong_tx": "wrong_tx_under_hash", "missing_tx": "missing_tx", "index_out_of_range": "index_out_of_range",
           "index_far_out_of_range": "index_out_of_range"}
@@ -665,6 +676,8 @@ def _check_validate(name, net, rng, rec, n_in, kind, pos):
             kind = "amount_plus"
         else:
             f["coin_value"] -= 1
+    elif kind == "amount_zero":
+        f["coin_value"] = 0             # (every source output is worth >= 1)
     elif kind == "script_byte":
         j = rng.randrange(len(f["script"]))
         f["script"] = f["script"][:j] + bytes([f["script"][j] ^ (1 << rng.randrange(8))]) + f["script"][j + 1:]
@@ -712,6 +725,10 @@ def _check_validate(name, net, rng, rec, n_in, kind, pos):
     sides = {"B": (recorded, db_src), "G": (good_recorded, good_db)}
     if kind == "none":
         sides["B"] = None
+    else:
+        rec.ev("validate_position." + ("first" if pos == 0 else "later"))
+        if hashes.count(hashes[pos]) > 1:
+            rec.ev("validate_position.shared_source" + ("_later_input" if pos > 0 else ""))
     _judge_validate(name, net, rec, case, sides, kind, setting)
 
 
@@ -751,7 +768,7 @@ def _dress(name, net, tx, setting, upto):
                 tx.txs_in[i].witness = w
 
 
-def _validate_run(name, net, sides, setting):
+def _validate_run(name, net, sides, setting, rec=None):
     """build the spending transaction for the first step of the history, then for each step install that side's recorded
     unspents and verify against that side's database. Returns ("setup_failed", exception) or a list of
     (side, status, value, expected fee) per step."""
@@ -787,6 +804,13 @@ def _validate_run(name, net, sides, setting):
             st, e = observe(_dress, name, net, tx, setting, len(recorded))
             if st != "ok":
                 return "setup_failed", e
+            if rec is not None and setting["state"] != "unsigned":
+                # was the state really reached (sign_tx may have signed nothing)?
+                st, filled = observe(lambda: sum(1 for t in tx.txs_in if t.script or t.witness))
+                if st == "ok" and filled:
+                    rec.ev("validate_state_reached." + setting["state"])
+                    if filled == len(tx.txs_in):
+                        rec.ev("validate_state_reached.all_inputs")
         if j > 0:
             if setting["edit_via"] == "attr":
                 for u, g in zip(tx.unspents, recorded):
@@ -825,7 +849,10 @@ def _judge_validate(name, net, rec, case, sides, kind, setting):
     rec.ev("validate_state." + setting["state"])
     rec.ev("validate_entry." + setting["entry"])
     rec.ev("validate_history." + ("single" if len(history) == 1 else "repeated"))
-    status, results = _validate_run(name, net, sides, setting)
+    rec.ev("validate_db." + setting["db_form"])
+    if len(history) > 1:
+        rec.ev("validate_edit." + setting["edit_via"])
+    status, results = _validate_run(name, net, sides, setting, rec)
     if status != "ran":
         rec.violation("validate.setup_failed", case, results, "transaction")
         return
@@ -867,6 +894,9 @@ def run_validate(spec, rec, nets):
         _check_validate(name, nets[name], rng, rec, n_in, kind, pos)
     rec.require("Tx.validate_unspents", "validate_unspents.none", *["validate_unspents." + k for k in DISCREPANCIES if k != "amount_minus"])
     rec.require("validate_history.repeated", *["validate_state." + s for s in STATES] + ["validate_entry." + e for e in ENTRIES])
+    rec.require("validate_position.first", "validate_position.later", "validate_position.shared_source_later_input", "validate_db.dict",
+                "validate_db.getter", "validate_edit.set_unspents", "validate_edit.attr", "validate_state_reached.all_inputs",
+                *["validate_state_reached." + s for s in STATES if s != "unsigned"])
 
 
 # ---------------------------------------------------------------------------------------------
@@ -1028,6 +1058,14 @@ def _hist_entry_unspents(entry):
         # one record is read per input; if that fails the transaction has no records at all
         return [] if len(recs) < len(entry["ins"]) else [None if r is None else dict(r) for r in recs]
     return [None if r is None else dict(r) for r in recs]
+
+
+def _hist_entry_irregular(entry):
+    """an entry whose records do not fit the inputs one to one (too many, too few, a None / zero-amount one)"""
+    recs = entry.get("recs")
+    if entry["via"] not in ("ctor", "from_bin") or not recs:
+        return False
+    return len(recs) != len(entry["ins"]) or any(r is None for r in recs)
 
 
 def _hist_twin_unspents(st0, step, coins):
@@ -1352,6 +1390,9 @@ def _hist_judge_query(rec, viol, tx, st, coins, step, db_objs, reported):
     out_sum = sum(st["outs"])
     got = {}
     for q in step["q"]:
+        rec.ev("history.read.%s.%s" % (q, klass if q != "total_out" else "any"))
+        if q == "validate" and klass == "consistent":
+            rec.ev("history.validate." + ("discrepant" if cands[0][1] else "faithful"))
         if q == "total_out":
             rec.ev("Tx.total_out")
             s, r = observe(tx.total_out)
@@ -1437,7 +1478,14 @@ def _exec_history(name, net, case, rec=None):
     rec.ev("history.entry." + entry["via"])
     s, tx = observe(_hist_build, name, net, coins, entry)
     if s != "ok":
+        if _hist_entry_irregular(entry):
+            # records that do not fit the inputs handed to the constructor / appended to the serialised form: nothing in the
+            # statement makes the library take them; refusing them leaves no object to read a fee from
+            rec.ev("history.entry_refused")
+            return []
         return [("history.setup_failed", False, -1, tx, "transaction")]
+    if _hist_entry_irregular(entry):
+        rec.ev("history.entry_irregular_taken")
     if entry["via"] == "create_tx":
         rec.ev("create_tx")
         st = {"ins": list(entry["ins"]), "unsp": [dict(r) for r in entry["recs"]],
@@ -1465,6 +1513,9 @@ def _exec_history(name, net, case, rec=None):
                           unspents=[_hist_obj(Tx, coins, r) for r in recs])
             s, t2 = observe(twin)
             if s != "ok":
+                if step["via"] == "roundtrip" and _hist_reference(st0, coins)[0] != "consistent":
+                    rec.ev("history.twin_refused")      # serialising "with unspents" an object whose records do not fit may be refused
+                    continue
                 out.append(("history.setup_failed", False, at, t2, "second transaction object"))
                 return out
             rec.ev("history.twin")
@@ -1563,6 +1614,8 @@ def run_history(spec, rec, nets):
     for i in range(spec["n"]):
         name = names[i % len(names)]
         _check_history(name, nets[name], rng, rec)
+    rec.require("history.validate.faithful", "history.validate.discrepant", "history.read.total_out.any",
+                *["history.read.%s.%s" % (q, k) for q in ("fee", "total_in", "validate") for k in ("consistent", "surplus", "unrecorded")])
     rec.require("Tx.fee", "Tx.total_in", "Tx.total_out", "Tx.validate_unspents", "history.twin", "history.refused", "history.mutator_refused",
                 *(["history.state." + k for k in ("consistent", "surplus", "unrecorded")] + ["history.entry." + e for e in HIST_ENTRIES] +
                   ["history.mutator." + g for g in HIST_GROUPS if g != "construction"]))
@@ -1594,30 +1647,48 @@ def _check_convert(conv, x, rec, strings=True):
         rec.case(("conv", unit, x), nontrivial=x != 0)
         rec.ev("satoshi_to_" + unit)
         st, d = observe(to_unit, x)
-        if st != "ok" or not isinstance(d, decimal.Decimal) or Fraction(d) != Fraction(x, 10 ** places):
+        # exact = the returned number is x / 10^places as a rational (Fraction() of a Decimal / int / float is its exact value);
+        # the statement does not fix the type of the result
+        if st == "ok":
+            st, exact = observe(lambda: Fraction(d) == Fraction(x, 10 ** places))
+            exact = st == "ok" and exact
+        if st != "ok" or not exact:
             rec.violation("convert.satoshi_to_%s.inexact" % unit, case, str(d) if st == "ok" else d, "%d / 10^%d" % (x, places))
         else:
             rec.ev(unit + "_to_satoshi")
             st, back = observe(to_sat, d)
-            if st != "ok" or back != x or isinstance(back, (float, decimal.Decimal)):
+            if st != "ok" or back != x:
                 rec.violation("convert.%s_roundtrip" % unit, case, back, x)
+            elif strings and isinstance(d, decimal.Decimal):
+                # the decimal strings of the returned amount itself (what a caller prints and reads back)
+                for s in (str(d), format(d, "f")):
+                    rec.ev(unit + "_to_satoshi")
+                    rec.ev("convert.printed_string")
+                    st, v = observe(to_sat, s)
+                    if st != "ok" or v != x:
+                        rec.violation("convert.%s_to_satoshi.printed_string_inexact" % unit, dict(case, text=s), v, x)
+                        break
         if strings:
             for s in _dec_strings(x, places):
                 rec.ev(unit + "_to_satoshi")
+                rec.ev("convert.string")
                 st, v = observe(to_sat, s)
-                if st != "ok" or v != x or isinstance(v, (float, decimal.Decimal)):
+                if st != "ok" or v != x:
                     rec.violation("convert.%s_to_satoshi.string_inexact" % unit, dict(case, text=s), v, x)
                     break
             ex = decimal.Decimal(x).scaleb(-places)     # exact: pure exponent shift
             rec.ev(unit + "_to_satoshi")
+            rec.ev("convert.decimal")
             st, v = observe(to_sat, ex)
             if st != "ok" or v != x:
                 rec.violation("convert.%s_to_satoshi.decimal_inexact" % unit, case, v, x)
-    if x % 10 ** 8 == 0:
-        rec.ev("btc_to_satoshi")
-        st, v = observe(conv.btc_to_satoshi, x // 10 ** 8)
-        if st != "ok" or v != x:
-            rec.violation("convert.btc_to_satoshi.int_inexact", {"kind": "convert", "unit": "btc", "satoshi": x}, v, x)
+        if x % 10 ** places == 0:
+            # a whole number of units handed over as an int
+            rec.ev(unit + "_to_satoshi")
+            rec.ev("convert.int." + unit)
+            st, v = observe(to_sat, x // 10 ** places)
+            if st != "ok" or v != x:
+                rec.violation("convert.%s_to_satoshi.int_inexact" % unit, case, v, x)
 
 
 def _convert_sweep_values():
@@ -1635,7 +1706,8 @@ def _convert_sweep_values():
 
 def run_convert(spec, rec):
     from pycoin import convention as conv
-    rec.require("satoshi_to_btc", "btc_to_satoshi", "satoshi_to_mbtc", "mbtc_to_satoshi")
+    rec.require("satoshi_to_btc", "btc_to_satoshi", "satoshi_to_mbtc", "mbtc_to_satoshi", "convert.string", "convert.printed_string",
+                "convert.decimal", "convert.int.btc", "convert.int.mbtc")
     if spec["kind"] == "convert_sweep":
         for x in _convert_sweep_values():
             _check_convert(conv, x, rec)
@@ -1666,6 +1738,9 @@ def run_shard(spec, rec):
         rec.require("split_with_remainder")
         return run_split_exhaustive(spec, rec, nets)
     if kind == "build_sweep":
+        rec.require(*["build.remainder." + c for c in ("neg", "lt_k", "eq_k", "k+1", "big", "no_unspecified")])
+        rec.require("build.entry.create_tx", "build.entry.split_pool", "build.payables_mixed", "build.container.list", "build.container.tuple",
+                    *["build.form." + f for f in ("object", "text", "dict", "mixed")])
         rec.require("create_tx", "distribute_from_split_pool", "expected_error", "expected_tx", "Tx.fee", "Tx.total_in", "Tx.total_out", "pairing",
                     "second_build", "aftermath.failed_build", *["aftermath." + g for g in sorted(set(_AFTER_GROUP.values()) | {"spendables_list_edit"})])
         return run_build_sweep(spec, rec, nets)
